@@ -4,7 +4,7 @@ HERE=$(cd "$(dirname "$0")/.." && pwd)
 . "$HERE/bin/env.sh"
 patchf=$(readlink -f "$1"); prop=$2; tier=${3:-quick}
 dir=$(mktemp -d /var/tmp/sebuf-m.XXXXXX); out=$(mktemp -d /var/tmp/sebuf-o.XXXXXX)
-cp -r /repo/. "$dir"/ && rm -rf "$dir/.git"
+cp -r "${VERIF_BASE_REPO:-/repo}"/. "$dir"/ && rm -rf "$dir/.git"
 (cd "$dir" && patch -p1 -s < "$patchf") || { echo "patch does not apply"; rm -rf "$dir" "$out"; exit 3; }
 VERIF_REPO="$dir" VERIF_OUT="$out" "$HERE/bin/run" "$prop" "$tier" 2>&1 | sed "s#$dir/##g" | grep -v "^KNOWN-FINDING" | cut -c1-420
 code=$?
